@@ -27,10 +27,11 @@ import (
 func main() { vlib.Run("C26", run) }
 
 func run(c *vlib.Ctx) {
-	c.Rule("roundtrip case = key type (Ed25519/secp256k1/ECDSA/RSA-2048) x value path (ipfs/ipld/ipns, CIDv0/v1, remainders, trailing slash) x sequence (edges 0,1,2^31,2^32,2^53,2^63-1,2^63,2^64-1 + random) x EOL 2100..9999-12-31T23:59:59.999999999Z with ns and zones x TTL (negative,0,ns..max) x metadata (0-8 entries of string/bytes/int64/int/bool, keys colliding in length and near reserved names) x WithV1Compatibility x WithPublicKey{default,true,false}; badmeta case = valid map plus 1-2 invalid entries (empty key, reserved key, nil, unsupported type); distinct = FNV of the input description; non-trivial (roundtrip) = decoded record validated through >= 2 entry points AND (sequence >= 2^32 or EOL has sub-second digits or metadata has >= 2 entries); non-trivial (badmeta) = NewRecord returned an error for a map that also contains valid entries")
+	c.Rule("roundtrip case = key type (Ed25519/secp256k1/ECDSA/RSA-2048) x value path (ipfs/ipld/ipns, CIDv0/v1, remainders, trailing slash) x sequence (edges 0,1,2^31,2^32,2^53,2^63-1,2^63,2^64-1 + random) x EOL 2100..9999-12-31T23:59:59.999999999Z with ns and zones x TTL (negative,0,ns..max) x metadata (0-8 entries of string/bytes/int64/int/bool, keys colliding in length and near reserved names) x WithV1Compatibility x WithPublicKey{default,true,false}; badmeta case = valid map plus 1-2 invalid entries (empty key, reserved key, nil, unsupported type); distinct = FNV of the input description; non-trivial (roundtrip) = decoded record validated through >= 2 entry points AND (sequence >= 2^32 or EOL has sub-second digits or metadata has >= 2 entries); non-trivial (badmeta) = NewRecord returned an error for a map that also contains valid entries; size case = record padded by a tuned metadata entry to exactly MaxRecordSize-1 / MaxRecordSize / MaxRecordSize+1 encoded bytes for every key, full round trip required up to the limit (non-trivial when at or below the limit and validated)")
 	kit.Keys(c.Seed)
 	c.Cases("roundtrip", c.N(2600, 52000), roundtrip)
 	c.Cases("badmeta", c.N(400, 8000), badMeta)
+	c.Cases("size", c.N(72, 720), sizeCase)
 }
 
 // ---------------------------------------------------------------- CBOR map scanner
@@ -188,9 +189,52 @@ func roundtrip(k *vlib.Case) {
 	s := kit.GenSpec(r, ks, key, true)
 	s.Meta = richMeta(r)
 	k.Logf("NewRecord %s", s)
-	fail := func(class, clause, exp, obs string) { k.Fail(class, clause, exp, obs) }
-
 	rec, err := s.New()
+	checkRoundtrip(k, ks, s, rec, err, "")
+}
+
+// sizeCase: a record padded with one metadata entry of tuned length so that it
+// serialises to exactly MaxRecordSize-1, MaxRecordSize or MaxRecordSize+1
+// bytes. Up to and including MaxRecordSize the full round trip must succeed.
+func sizeCase(k *vlib.Case) {
+	r := k.R
+	ks := kit.Keys(k.C.Seed)
+	key := ks[(k.Index/3)%len(ks)]
+	s := kit.GenSpec(r, ks, key, true)
+	base := kit.GenMeta(r, 3)
+	T := ipns.MaxRecordSize - 1 + k.Index%3
+	k.Logf("NewRecord padded (metadata \"_pad\") to exactly %d encoded bytes (limit %+d): %s", T, T-ipns.MaxRecordSize, s)
+	salt := r.Fork("salt") // the number of signing attempts depends on DER signature lengths; keep it off the case PRNG
+	pad := T - 1500
+	for iter := 0; iter < 120; iter++ {
+		t := *s
+		t.Meta = map[string]any{"_pad": strings.Repeat("p", pad), "_salt": fmt.Sprintf("%016x", salt.Uint64())}
+		for mk, mv := range base {
+			t.Meta[mk] = mv
+		}
+		rec, err := t.New()
+		if err != nil {
+			checkRoundtrip(k, ks, &t, rec, err, "size/")
+			return
+		}
+		wire, err := ipns.MarshalRecord(rec)
+		if err != nil {
+			panic(err)
+		}
+		if len(wire) == T {
+			checkRoundtrip(k, ks, &t, rec, nil, "size/")
+			return
+		}
+		pad += T - len(wire)
+	}
+	panic(fmt.Sprintf("could not produce a record of exactly %d bytes", T))
+}
+
+// checkRoundtrip is the oracle for one created record. classPrefix separates
+// the size stratum's classes from the general ones.
+func checkRoundtrip(k *vlib.Case, ks []*kit.Key, s *kit.Spec, rec *ipns.Record, err error, classPrefix string) {
+	key := s.Key
+	fail := func(class, clause, exp, obs string) { k.Fail(classPrefix+class, clause, exp, obs) }
 	if err != nil {
 		if s.TTL < 0 {
 			k.Logf("   -> creation refused a negative TTL: %v (outside the statement's domain)", err)
